@@ -253,8 +253,8 @@ func (p c13) Run(c *core.Ctx) {
 		if len(cands) > 0 {
 			creationFault = cands[c.Rng.Intn(len(cands))]
 			kind := "init"
-			if !world.Palette[sc.Nodes[creationFault].Type].Init {
-				kind = "aps"
+			if ti := world.Palette[sc.Nodes[creationFault].Type]; !ti.Init || (ti.Aps && c.Rng.Intn(2) == 0) {
+				kind = "aps" // (also for components with both hooks: AfterPropertiesSet fails, Init would succeed)
 			}
 			if c.Rng.Intn(2) == 0 {
 				sc.Nodes[creationFault].FailOnce = append(sc.Nodes[creationFault].FailOnce, kind)
